@@ -215,34 +215,18 @@ Proof.
 Qed.
 
 (* the namespace dump of a root element *)
-Definition ns_char_ok (c : cp) : bool :=
-  xml10_char c && negb (in_ranges filtered c) && negb (c =? cQUOT) && negb (c =? cTAB) && negb (c =? cLF) && negb (c =? cCR).
+Definition ns_char_ok (c : cp) : bool := (c <=? 1114111) && negb (in_ranges filtered c).
 Definition ns_entry_ok (e : str * str) : bool :=
   forallb ns_char_ok (fst e) && is_ncname (snd e).
 
-Lemma lex_plain_body ts n atts an d : forallb ns_char_ok d = true -> forall acc,
-  run (sanitize filtered [] d) (mkL ts (MAttVal n atts an cQUOT acc)) = mkL ts (MAttVal n atts an cQUOT (acc ++ d)).
+Lemma ns_chars_unfiltered d : forallb ns_char_ok d = true -> canon_str d = d /\ in_codespace d.
 Proof.
-  rewrite sanitize_plain_pointwise.
-  induction d as [|c d IH]; intros H acc; [cbn; now rewrite app_nil_r|].
-  cbn [forallb] in H. apply andb_true_iff in H as [H1 H2].
-  unfold ns_char_ok in H1. repeat (apply andb_true_iff in H1 as [H1 ?]).
-  repeat match goal with H : negb _ = true |- _ => apply negb_true_iff in H end.
-  cbn [handle_unrepresentable map flat_map]. unfold filter_char at 1.
-  match goal with H : in_ranges filtered c = false |- _ => rewrite H end.
-  rewrite run_app.
-  assert (Hstep : run (esc_plain c) (mkL ts (MAttVal n atts an cQUOT acc)) = mkL ts (MAttVal n atts an cQUOT (acc ++ [c]))).
-  { unfold esc_plain.
-    destruct (c =? cAMP) eqn:E1; [apply N.eqb_eq in E1; subst; rewrite sAMP_eq; reflexivity|].
-    destruct (c =? cLT) eqn:E2; [apply N.eqb_eq in E2; subst; rewrite sLT_eq; reflexivity|].
-    destruct (c =? cGT) eqn:E3; [apply N.eqb_eq in E3; subst; rewrite sGT_eq; reflexivity|].
-    rewrite run_cons, run_nil. unfold lstep. cbn [md toks].
-    repeat match goal with H : (c =? _) = false |- _ => rewrite H end. cbn [orb].
-    now rewrite H1. }
-  rewrite Hstep. fold (handle_unrepresentable filtered d).
-  change (flat_map esc_plain (handle_unrepresentable filtered d)) with (flat_map esc_plain (handle_unrepresentable filtered d)).
-  specialize (IH H2 (acc ++ [c])). rewrite sanitize_plain_pointwise in IH || idtac.
-  rewrite IH. now rewrite <- app_assoc.
+  induction d as [|c d IH]; intros H; [split; [reflexivity|constructor]|].
+  cbn [forallb] in H. apply andb_true_iff in H as [H1 H2]. destruct (IH H2) as [E C].
+  unfold ns_char_ok in H1. apply andb_true_iff in H1 as [Hm Hf]. apply negb_true_iff in Hf.
+  split.
+  - cbn [handle_unrepresentable map]. unfold filter_char at 1. rewrite Hf. f_equal. exact E.
+  - constructor; [now apply N.leb_le|exact C].
 Qed.
 
 Definition sXMLNS_C := s2l "xmlns:".
@@ -250,18 +234,15 @@ Definition raw_decl (e : str * str) : str * str := (sXMLNS_C ++ snd e, fst e).
 
 Lemma lex_ns_entry ts n pre st e : ns_entry_ok e = true -> intag ts n pre st ->
   intag ts n (pre ++ [raw_decl e])
-    (run (sXMLNSCOLON ++ snd e ++ [cEQ; cQUOT] ++ sanitize filtered [] (fst e) ++ [cQUOT]) st).
+    (run (sXMLNSCOLON ++ snd e ++ [cEQ] ++ quoteattr filtered (fst e)) st).
 Proof.
   intros He Hin. unfold ns_entry_ok in He. apply andb_true_iff in He as [Hns Hp].
+  destruct (ns_chars_unfiltered _ Hns) as [Hcanon Hcs].
   change sXMLNSCOLON with (cSP :: 120 :: s2l "mlns:"). cbn [app].
   rewrite run_cons, (intag_space _ _ _ _ Hin).
   rewrite (app_assoc (s2l "mlns:") (snd e)).
   rewrite lex_attname_start; [|reflexivity|rewrite all_name_app, (ncname_all_name _ Hp); reflexivity].
-  rewrite run_cons.
-  change (lstep (mkL ts (MAttEq n pre (120 :: s2l "mlns:" ++ snd e))) cQUOT)
-    with (mkL ts (MAttVal n pre (120 :: s2l "mlns:" ++ snd e) cQUOT [])).
-  rewrite run_app, lex_plain_body by exact Hns.
-  rewrite run_cons, run_nil. cbn [app].
+  rewrite lex_quoteattr by assumption. rewrite Hcanon.
   split; [reflexivity|]. right. exists false. reflexivity.
 Qed.
 
